@@ -308,7 +308,77 @@ def build_calls(rows, rng, tier, per_row):
                         continue    # xchg eax/rax with itself is canonically NOP (90): not a form of xchg under any decoder
                     calls.append({"mode": mode, "base": base, "row": row["id"], "name": row["name"], "opt": opt, "extra": extra, "ops": vops, "deco": deco,
                                   "strat": strat + ("/impl" if vi == 0 and len(variants) > 1 else ""), "memform": bool(has_mem and memform)})
+    calls += pinned_calls(rows)
     return calls
+
+
+def pinned_calls(rows):
+    """Deterministic strata walked for EVERY row (not sampled): (1) each memory operand with base rbp / r13 / rsp / r12 (ebp / esp in
+    32-bit mode), NO index and displacement exactly 0 -- the mod=00 special cases (rm=101 means disp32, SIB base=101 means no base),
+    also for the rows that always emit a SIB byte (AMX tile memory) -- and with a displacement of 1; (2) each 8-bit register operand as
+    SPL / BPL / SIL / DIL (and AH..BH) while NOTHING else in the instruction needs a REX prefix (all other registers 0..3, low base
+    register, no options)."""
+    out = []
+    d0 = {"lock": 0, "f2": 0, "f3": 0, "k": 0, "z": 0, "rc": -1}
+    for row in rows:
+        if row["unsupported"]:
+            continue
+        modes = [32, 64]
+        if row["arch"] == 1: modes = [32]
+        if row["arch"] == 2: modes = [64]
+        mem_idx = [k for k, d in enumerate(row["ops"]) if d["kind"] in (1, 2) and d["slot"] == 2]
+        r8_idx = [k for k, d in enumerate(row["ops"]) if d["cls"] == 1 and d["fixed"] < 0 and d["kind"] in (0, 2)]
+
+        def low_ops(mode, memk=None, base=None, disp=0, r8k=None, r8=None):
+            ops = []
+            for k, d in enumerate(row["ops"]):
+                if d["slot"] == 10:
+                    ops.append(["L", 10])
+                elif d["kind"] == 3:
+                    ops.append(["I", d["immval"] if d["immval"] >= 0 else 1])
+                elif k == r8k:
+                    ops.append(["R", r8[0], r8[1]])
+                elif d["slot"] == 9 or d["slot"] == 8:
+                    return None
+                elif d["kind"] == 0 or (d["kind"] == 2 and k != memk):
+                    if d["fixed"] >= 0:
+                        ops.append(["R", d["cls"], d["fixed"]])
+                    else:
+                        ops.append(["R", d["cls"], {10: 1}.get(d["cls"], 1 if d["cls"] == 9 else (k % 3) + 1 if d["cls"] not in (14,) else 1)])
+                else:
+                    acls = 4 if mode == 64 else 3
+                    b = base if k == memk else 0
+                    vs = row["vsib"]
+                    icls, iid = (vs, 2) if vs else (0, 0)
+                    ops.append(["M", d["msz"], 0, acls, b, icls, iid, 0, disp if k == memk else 0, 0, 0])
+            return ops
+        for mode in modes:
+            for mk in mem_idx:
+                for base in ([5, 13, 4, 12] if mode == 64 else [5, 4]):
+                    for disp in (0, 1):
+                        ops = low_ops(mode, memk=mk, base=base, disp=disp)
+                        if ops is None or len(ops) > 6:
+                            continue
+                        extra = "-"
+                        deco = dict(d0)
+                        if row["vsib"] and row["kind"] == 3:
+                            extra = "9:1"; deco["k"] = 1      # EVEX gather / scatter need a mask
+                        for vops in ([ops] + ([[o for o, d in zip(ops, row["ops"]) if not d["implicit"]]] if any(d["implicit"] for d in row["ops"]) else [])):
+                            out.append({"mode": mode, "base": None, "row": row["id"], "name": row["name"], "opt": 0, "extra": extra, "ops": vops, "deco": deco,
+                                        "strat": "pinned-base%d-disp%d" % (base, disp), "memform": True})
+            if mode == 64 or True:
+                for rk in r8_idx:
+                    for r8 in ([(1, 4), (1, 5), (1, 6), (1, 7), (16, 0), (16, 3)] if mode == 64 else [(16, 0), (16, 3), (1, 3)]):
+                        for memk in ([None] + mem_idx[:1]):
+                            if memk == rk:
+                                continue
+                            ops = low_ops(mode, memk=memk, base=1, disp=0, r8k=rk, r8=r8)
+                            if ops is None or len(ops) > 6:
+                                continue
+                            for vops in ([ops] + ([[o for o, d in zip(ops, row["ops"]) if not d["implicit"]]] if any(d["implicit"] for d in row["ops"]) else [])):
+                                out.append({"mode": mode, "base": None, "row": row["id"], "name": row["name"], "opt": 0, "extra": "-", "ops": vops, "deco": dict(d0),
+                                            "strat": "pinned-r8-%d.%d" % r8, "memform": memk is not None})
+    return out
 
 
 def harness_line(c):
@@ -464,8 +534,8 @@ def implicit_regs(row, mode):
 
 
 # coverage floors recorded when the check was claimed (pinned tree: 4484 supported rows, ~4180 rows with a verified call per quick run)
-MIN_SUPPORTED_ROWS = 4400
-MIN_VERIFIED_ROWS = 3950
+MIN_SUPPORTED_ROWS = 4480
+MIN_VERIFIED_ROWS = 4000
 
 ALIAS_FILE = os.path.join(vlib.VERIF, "corpus", "C01_llvm_alias.txt")
 
@@ -602,15 +672,28 @@ def run(ck):
     rng = random.Random(ck.seed)
     rows, names = c01_db.build(vlib.REPO)
     text = c01_db.coq_text(rows, names)
-    regen = ck.coq_regen({"IsaX86Db.v": text})
+    import c01_tables
+    dumper = ck.build_harness("c01dump", ["c01_dump.cpp"])
+    tabs, insts = c01_tables.dump(dumper)
+    ttext, tinfo = c01_tables.coq_text(tabs, insts, names, rows)
+    regen = ck.coq_regen({"IsaX86Db.v": text, "X86Tables.v": ttext})
     gen_dir = None
     if regen is not None:
         gen_dir, failed, log = regen
         ck.log("database changed: regenerated IsaX86Db.v recompiled, failed: %s" % failed)
         if failed:
-            ck.violation("C01/db-reflection", "the regenerated ISA database no longer passes its reflection lemmas (db_wf / bucket / row_of): %s" % log[-800:],
-                         {"broken": "coq/gen/IsaX86Db.v reflection lemmas", "log": log[-2000:]}, no_input=True)
-    failed = ck.coq_make(["theories/X86/X86Denote.vo", "theories/X86/X86DbCheck.vo", "theories/X86/X86Proofs.vo", "gen/IsaX86Db.vo"])
+            ck.violation("C01/gen-reflection/" + "+".join(failed), "the regenerated %s no longer pass their reflection lemmas (ISA database well-formedness / AsmJit table "
+                         "specifications / table-vs-database agreement): %s" % (failed, log[-800:]),
+                         {"broken": "reflection lemmas of coq/gen/%s" % failed, "log": log[-2000:]}, no_input=True)
+    if regen is not None and "IsaX86Db.v" in failed:
+        # the search phase still needs an executable model of the NEW database: recompile the data without the failing lemmas
+        strip = lambda t: re.sub(r"(?s)\nLemma [^\n]*?:.*?Qed\.\n", "\n", t)
+        regen2 = ck.coq_regen({"IsaX86Db.v": strip(text) if "IsaX86Db.v" in failed else text,
+                               "X86Tables.v": "From Coq Require Import ZArith.\n" if "X86Tables.v" in failed or "IsaX86Db.v" in failed else ttext})
+        if regen2 is not None and "IsaX86Db.v" not in regen2[1]:
+            gen_dir = regen2[0]
+    failed = ck.coq_make(["theories/X86/X86Denote.vo", "theories/X86/X86DbCheck.vo", "theories/X86/X86Proofs.vo", "theories/X86/X86TablesSpec.vo",
+                          "gen/IsaX86Db.vo", "gen/X86Tables.vo"])
     if failed:
         ck.violation("C01/coq-build", "the Coq development no longer builds: %s %s" % (failed, getattr(ck, "coq_log", "")[-600:]),
                      {"broken": "coq build of %s" % failed}, no_input=True)
@@ -854,7 +937,8 @@ def run(ck):
          "db_rows": len(rows), "db_rows_supported": len(sup_rows), "db_rows_with_accepted_and_verified_call": len(covered_rows),
          "supported_row_mnemonics_never_accepted": never[:80], "supported_row_mnemonics_never_accepted_count": len(never),
          "unsupported": {k: {"rows": len(v), "mnemonics": sorted(set(v))[:40]} for k, v in sorted(uns.items())},
-         "input_distribution": strata, "oracle": stats, "known_base_address_calls": len([1 for c, _ in acc if c.get("base")]),
+         "asmjit_tables": tinfo,
+         "db_rows_repaired": sorted(set("%s [%s]" % (r["name"], r["repaired"]) for r in rows if r.get("repaired")))[:60], "input_distribution": strata, "oracle": stats, "known_base_address_calls": len([1 for c, _ in acc if c.get("base")]),
          "known_base_address_calls_encoded_rip_relative": rip_readings, "mnemonics_llvm_mc_14_never_decodes": sorted(llvm_never)[:300], "database_regenerated": regen is not None},
         assumptions=["the C++ harness calls the real x86::Assembler::_emit of /repo's working tree with DiagnosticOptions::kValidateAssembler",
                      "theorems are about the Gallina structural encoder/decoder; that AsmJit's bytes are decodable to the call is established on the generated calls only",
